@@ -364,6 +364,30 @@ func runC10(tier string, _ []string) int {
 			prev := b
 			for step := 2; step <= 4 && r.Chance(0.5); step++ {
 				next := mutateValue(r, g, prev, maxLen)
+				if r.Chance(0.35) {
+					// the way application code edits a configuration it holds: copy the struct, append to one of
+					// its slices (the copy shares the backing array with the held value where capacity allows)
+					// and diff the held value against the copy
+					held := reflect.New(g.T).Elem()
+					held.Set(out)
+					edited := reflect.New(g.T).Elem()
+					edited.Set(out)
+					done := false
+					for j, f := range g.Fields {
+						if f.Tag == "point" && f.Shape == "slice" && !done && r.Chance(0.6) {
+							fv := edited.Field(j)
+							if fv.Len() >= maxLen {
+								continue
+							}
+							fv.Set(reflect.Append(fv, genScalar(r, fv.Type().Elem())))
+							done = true
+						}
+					}
+					if done {
+						prev, next = held, edited
+						c.Count("in_place_appends", 1)
+					}
+				}
 				c.Eval(1)
 				pts, err := data.DiffPoints(prev, next)
 				if err != nil {
